@@ -278,43 +278,46 @@ fn answer(a: &[&str]) -> String {
             }
             format!("{} {}", glen, count)
         }
-        // rq_items la lt lu -> "OK <bytes>" if every item length field of the written A-ASSOCIATE-RQ tiles its content, else "BAD <why>"
-        "rq_items" => {
-            use dicom_ul::pdu::{write_pdu, AssociationRQ, Pdu, PresentationContextProposed, RequestorRoles, UserVariableItem};
-            let n: Vec<usize> = a[1..].iter().map(|x| x.parse().unwrap()).collect();
+        // assoc_bytes rq|ac la lt lu -> "HEX <bytes>" of the written A-ASSOCIATE-RQ / -AC with every user sub-item kind (walked by the caller)
+        "assoc_bytes" => {
+            use dicom_ul::pdu::{write_pdu, AssociationAC, AssociationRQ, Pdu, PresentationContextProposed, PresentationContextResult, PresentationContextResultReason,
+                                RequestorRoles, UserIdentity, UserIdentityType, UserVariableItem};
+            let n: Vec<usize> = a[2..].iter().map(|x| x.parse().unwrap()).collect();
             let s = |k: usize| "1234567"[..k].to_string();
-            let pdu = Pdu::AssociationRQ(AssociationRQ {
-                protocol_version: 1,
-                calling_ae_title: "CALLING".into(),
-                called_ae_title: "CALLED-AE".into(),
-                application_context_name: s(n[0]),
-                presentation_contexts: vec![PresentationContextProposed { id: 1, abstract_syntax: s(n[0]), transfer_syntaxes: vec![s(n[1]), s(1)] }],
-                user_variables: vec![
-                    UserVariableItem::MaxLength(16384),
-                    UserVariableItem::ImplementationClassUID(s(n[2])),
-                    UserVariableItem::ScuScpRoleSelectionSubItem(s(n[2]), RequestorRoles { scu: true, scp: false }),
-                    UserVariableItem::SopClassExtendedNegotiationSubItem(s(n[2]), vec![1, 2]),
-                    UserVariableItem::ImplementationVersionName(s(n[2])),
-                    UserVariableItem::Unknown(0x77, vec![9]),
-                ],
-            });
+            let user_variables = vec![
+                UserVariableItem::MaxLength(16384),
+                UserVariableItem::ImplementationClassUID(s(n[2])),
+                UserVariableItem::ScuScpRoleSelectionSubItem(s(n[2]), RequestorRoles { scu: true, scp: false }),
+                UserVariableItem::SopClassExtendedNegotiationSubItem(s(n[2]), vec![1, 2]),
+                UserVariableItem::ImplementationVersionName(s(n[2])),
+                UserVariableItem::UserIdentityItem(UserIdentity::new(true, UserIdentityType::UsernamePassword, vec![7, 8], vec![9])),
+                UserVariableItem::Unknown(0x77, vec![9]),
+            ];
+            let pdu = if a[1] == "rq" {
+                Pdu::AssociationRQ(AssociationRQ {
+                    protocol_version: 1,
+                    calling_ae_title: "CALLING".into(),
+                    called_ae_title: "CALLED-AE".into(),
+                    application_context_name: s(n[0]),
+                    presentation_contexts: vec![PresentationContextProposed { id: 1, abstract_syntax: s(n[0]), transfer_syntaxes: vec![s(n[1]), s(1)] }],
+                    user_variables,
+                })
+            } else {
+                Pdu::AssociationAC(AssociationAC {
+                    protocol_version: 1,
+                    calling_ae_title: "CALLING".into(),
+                    called_ae_title: "CALLED-AE".into(),
+                    application_context_name: s(n[0]),
+                    presentation_contexts: vec![
+                        PresentationContextResult { id: 1, reason: PresentationContextResultReason::Acceptance, transfer_syntax: s(n[1]) },
+                        PresentationContextResult { id: 3, reason: PresentationContextResultReason::TransferSyntaxesNotSupported, transfer_syntax: s(1) },
+                    ],
+                    user_variables,
+                })
+            };
             let mut b: Vec<u8> = Vec::new();
             if write_pdu(&mut b, &pdu).is_err() { return "BAD write_error".into(); }
-            fn walk(b: &[u8], mut at: usize, end: usize) -> Result<(), String> {
-                while at < end {
-                    if end - at < 4 { return Err(format!("dangling_{}_bytes_at_{}", end - at, at)); }
-                    let ty = b[at];
-                    let ln = ((b[at + 2] as usize) << 8) | b[at + 3] as usize;
-                    if at + 4 + ln > end { return Err(format!("item_{:02x}_at_{}_declares_{}_only_{}_left", ty, at, ln, end - at - 4)); }
-                    if ty == 0x20 || ty == 0x21 { walk(b, at + 8, at + 4 + ln)?; }
-                    if ty == 0x50 { walk(b, at + 4, at + 4 + ln)?; }
-                    at += 4 + ln;
-                }
-                Ok(())
-            }
-            let l = u32::from_be_bytes([b[2], b[3], b[4], b[5]]) as usize;
-            if l != b.len() - 6 { return format!("BAD pdu_length_{}_vs_{}", l, b.len() - 6); }
-            match walk(&b, 6 + 68, b.len()) { Ok(()) => format!("OK {}", b.len()), Err(e) => format!("BAD {}", e) }
+            format!("HEX {}", b.iter().map(|x| format!("{:02x}", x)).collect::<String>())
         }
         // ts_dump -> one line per registered transfer syntax
         "ts_dump" => {
